@@ -30,6 +30,9 @@ type Cfg struct {
 	V6     bool   `json:"ipv6"`
 	// History k > 0: the run happens in a process whose earlier runs have used up packet identifiers; its own range starts k below the 16-bit wrap
 	History int `json:"id_history,omitempty"`
+	// TimeoutMs (0 = 1000): the per-probe timeout; with a short one the later probes leave AFTER it has passed (they are sent
+	// 50 ms apart), which is fine: the listening budget is the timeout plus the send delays
+	TimeoutMs int `json:"timeout_ms,omitempty"`
 }
 
 func (c Cfg) class() string {
@@ -42,6 +45,9 @@ func (c Cfg) class() string {
 	}
 	if c.History > 0 {
 		fam += fmt.Sprintf("/packet-ids-%d-before-wrap", c.History)
+	}
+	if c.TimeoutMs > 0 {
+		fam += fmt.Sprintf("/timeout-%dms", c.TimeoutMs)
 	}
 	return fmt.Sprintf("len%d/%s-%s/port-%s/silent-%d/first-%d/x%d%s", c.Len, c.Proto, c.Method, c.Port, c.Silent, c.First, c.Concur, fam)
 }
@@ -85,6 +91,10 @@ func configs(tier string) []Cfg {
 					// not the first run of its process: the packet-identifier range of the SYN probes crosses the 16-bit wrap
 					out = append(out, Cfg{Len: l, Proto: v.p, Method: v.m, Port: map[string]string{"syn": "open", "prefer_sack": "nosack"}[v.m], First: 1, Concur: 1, History: 2})
 				}
+				if v.m != "syn" {
+					// a timeout shorter than the time it takes to send the probes up to the destination (parallel engines)
+					out = append(out, Cfg{Len: l, Proto: v.p, Method: v.m, Port: "open", First: 1, Concur: 1, TimeoutMs: 80})
+				}
 				// the very first probe already reaches the destination
 				out = append(out, Cfg{Len: l, Proto: v.p, Method: v.m, Port: "open", First: l + 1, Concur: 1})
 			}
@@ -100,6 +110,13 @@ func configs(tier string) []Cfg {
 		out = append(out, Cfg{Len: l, Proto: "mix-tcp", Port: "open", First: 1, Concur: 3})
 	}
 	return out
+}
+
+func timeoutOf(c Cfg) string {
+	if c.TimeoutMs > 0 {
+		return fmt.Sprint(c.TimeoutMs)
+	}
+	return "1000"
 }
 
 func maxOf(c Cfg) string {
@@ -278,9 +295,9 @@ func invoke(l *lab, c Cfg, proto, method string) (*doc, string, error) {
 	src := l.ns[0]
 	var args []string
 	if c.First > 1 || c.History > 0 {
-		args = []string{"netns", "exec", src, os.Getenv("VERIF_C13_DRV"), "-proto", proto, "-method", method, "-port", port, "-min", fmt.Sprint(c.First), "-max", maxOf(c), "-timeout", "1000", "-q", "1", "-e2e", fmt.Sprint(c.E2e), "-history", fmt.Sprint(c.History), dstAddr}
+		args = []string{"netns", "exec", src, os.Getenv("VERIF_C13_DRV"), "-proto", proto, "-method", method, "-port", port, "-min", fmt.Sprint(c.First), "-max", maxOf(c), "-timeout", timeoutOf(c), "-q", "1", "-e2e", fmt.Sprint(c.E2e), "-history", fmt.Sprint(c.History), dstAddr}
 	} else {
-		args = []string{"netns", "exec", src, os.Getenv("VERIF_C13_CLI"), "-P", proto, "-p", port, "-q", "1", "-Q", fmt.Sprint(c.E2e), "-m", maxOf(c), "--timeout", "1000"}
+		args = []string{"netns", "exec", src, os.Getenv("VERIF_C13_CLI"), "-P", proto, "-p", port, "-q", "1", "-Q", fmt.Sprint(c.E2e), "-m", maxOf(c), "--timeout", timeoutOf(c)}
 		if proto == "tcp" {
 			args = append(args, "--tcp-method", method)
 		}
